@@ -440,6 +440,26 @@ def history_rebind(r, prop, what):
     return GEN[prop](r, True)
 
 
+def reexec_out_of_context(job, asked):
+    """Open finding C13-redefinition-compiled-out-of-module-context: the history re-executes, ON ITS OWN, the definition of a
+    function that calls through a name the module binds by an import statement (`_mod.h2(a)`), and the function asked for its
+    version uses that function.  CPython compiles such a call differently when the import statement is not in the same
+    compilation unit; the code hash is taken from the bytecode."""
+    cur = {n["name"]: n for n in job["prog"]["nodes"]}
+    hit = set()
+    for s in job["steps"]:
+        if s["do"] == "set":
+            cur[s["node"]["name"]] = s["node"]
+        elif s["do"] == "deliver" and s.get("how") == "reexec":
+            n = cur.get(s["name"])
+            if n and any(q.get("form") == "initmod" for q in n.get("refs", [])):
+                hit.add(s["name"])
+    if not hit or not asked:
+        return False
+    p = {"nodes": list(cur.values()), "aliases": job["prog"].get("aliases", [])}
+    return any(x == asked or reaches(p, asked, x) for x in hit)
+
+
 def reaches_alias(p, src):
     """does src (transitively) call through an alias name?"""
     seen, todo = set(), [src]
@@ -635,7 +655,8 @@ def run(prop, tier):
             kinds = sorted({(s.get("why") or {}).get("edit", "?") + ("/" + s["why"]["slot"] if (s.get("why") or {}).get("slot") else "") for s in sets})
             facts = {"property": prop, "op": e.get("op"), "name": e.get("name"), "how": e.get("how", ""), "why": sorted(rj["why"]),
                      "exc": (e.get("exc") or "")[:100], "edit_kinds_in_history": kinds, "proc": e.get("proc"),
-                     "alias_collision": bool(jobs[rj["tid"] - 1].get("alias_collision"))}
+                     "alias_collision": bool(jobs[rj["tid"] - 1].get("alias_collision")),
+                     "reexec_out_of_module_context": reexec_out_of_context(jobs[rj["tid"] - 1], e.get("name"))}
             rep.violation(facts, {"job": jobs[rj["tid"] - 1], "events": evs, "accepted_prefix": rj["prefix"],
                                   "failed_clauses": sorted(rj["why"])})
         rep.assumptions += ["the plain twin (same source without decorators) defines 'what an un-memoized execution returns'",
